@@ -61,7 +61,7 @@ def process_jet(report, run, obs, rungs, sampler=None, workers=None, calib=None,
         if r['verdict'] == 'unknown':
             report.inconc(ob.name, 'no rung of the ladder settled the query')
         elif r['verdict'] == 'sat':
-            handle_sat(report, run, ob)
+            handle_sat(report, run, ob, obs)
     # translator validation: DAG value at a random admissible point == float run of the real code
     if sampler is not None and validate:
         good = [ob for ob in obs if ob.result['verdict'] == 'unsat' and ob.get is not None
@@ -85,7 +85,7 @@ def process_jet(report, run, obs, rungs, sampler=None, workers=None, calib=None,
     return obs
 
 
-def handle_sat(report, run, ob):
+def handle_sat(report, run, ob, obs=None):
     r = ob.result
     model = r['model']
     key = ob.meta.get('key', ob.name)
@@ -101,6 +101,11 @@ def handle_sat(report, run, ob):
     else:
         try:
             rp = replay_jet(run, ob, model)
+            if not rp['reproduces'] and not rp['dag_matches_code'] and obs:
+                rp2 = replay_jet(run, ob, model, history=obs)
+                if rp2['reproduces']:
+                    rp = dict(rp2, history='read after every obligation of the block had been requested on one instance')
+                    payload.update(history=True)
         except Exception as e:  # noqa
             report.harness_errors.append(f"replay of {ob.name} raised {e!r}")
             return
@@ -145,7 +150,7 @@ def replay_blocks(build, payload):
                     a, b = eval_terms([ob.impl, ob.oracle], model)
                     print(f"impl={a} oracle={b}")
                     return 1 if a != b else 0
-                rp = replay_jet(blk['run'], ob, model)
+                rp = replay_jet(blk['run'], ob, model, history=blk['obs'] if payload.get('history') else None)
                 print(json.dumps(rp, indent=1, default=str))
                 return 1 if rp['reproduces'] else 0
     print("obligation not found in the current harness")
